@@ -35,6 +35,26 @@ Definition truncF (f : float) : Z :=
   | _ => minInt64
   end.
 
+(** [math.Ceil(f)] followed by [int64]. *)
+Definition ceilF (f : float) : Z :=
+  match Prim2SF f with
+  | S754_zero _ => 0
+  | S754_finite s m e =>
+    if 0 <=? e then
+      let v := Zpos m * 2 ^ e in
+      if two63 <=? v then minInt64 else if s then - v else v
+    else
+      let d := 2 ^ (- e) in
+      let v := if s then - (Zpos m / d) else - ((- Zpos m) / d) in
+      if (two63 <=? v) || (v <? - two63) then minInt64 else v
+  | _ => minInt64
+  end.
+
+(** How the last step of calcSegmentAvailabilityTime turns float milliseconds into an integer:
+    [RTrunc] is [int64(x)] (the pinned code), [RCeil] is [int64(math.Ceil(x))] (the proposed
+    repair).  The correspondence harness reads which one the tree under test uses from the source. *)
+Inductive rounding := RTrunc | RCeil.
+
 (** The tick value [int(seg.EndTime)+wrapTime+mediaRef] of segment number [nr] (already a uint32). *)
 Definition availTicks (r : rep) (loopMS : Z) (c : tcfg) (nr : Z) : res Z :=
   let wrapLen := lenZ (segs r) in
@@ -53,15 +73,18 @@ Definition availTicks (r : rep) (loopMS : Z) (c : tcfg) (nr : Z) : res Z :=
 Definition atoF (atoMS : Z) : float := PrimFloat.div (f_of_Z atoMS) (f_of_Z 1000).
 
 (** [int64((float64(E)/float64(ts) - ato) * 1000)] *)
-Definition availFloatMS (E tsc atoMS : Z) : Z :=
-  truncF (PrimFloat.mul (PrimFloat.sub (PrimFloat.div (f_of_Z E) (f_of_Z tsc)) (atoF atoMS)) (f_of_Z 1000)).
+Definition availFloatMS_r (rm : rounding) (E tsc atoMS : Z) : Z :=
+  let x := PrimFloat.mul (PrimFloat.sub (PrimFloat.div (f_of_Z E) (f_of_Z tsc)) (atoF atoMS)) (f_of_Z 1000) in
+  match rm with RTrunc => truncF x | RCeil => ceilF x end.
+Definition availFloatMS := availFloatMS_r RTrunc.
 
-Definition availMS_float (r : rep) (loopMS : Z) (c : tcfg) (nr : Z) : res Z :=
+Definition availMS_float_r (rm : rounding) (r : rep) (loopMS : Z) (c : tcfg) (nr : Z) : res Z :=
   do E <- availTicks r loopMS c nr;
   match ato c with
   | None => Ok (startS c * 1000)
-  | Some atoMS => Ok (availFloatMS E (ts r) atoMS)
+  | Some atoMS => Ok (availFloatMS_r rm E (ts r) atoMS)
   end.
+Definition availMS_float := availMS_float_r RTrunc.
 
 (** Exact values: the availability instant is (E*1000 - atoMS*ts)/ts milliseconds. *)
 Definition availNumMS (E tsc atoMS : Z) : Z := E * 1000 - atoMS * tsc.
@@ -327,11 +350,12 @@ Definition session (cf : scfg) (nowMS : Z) (initres : list bool) (evs : list eve
   let '(gs, st1) := run cf st0 evs in (inits, gs, st1).
 
 (** The configuration with the code's own availability function. *)
-Definition mk_scfg (reps : list irep) (refr : rep) (loopMS segDurMS : Z) (c : tcfg)
+Definition mk_scfg_r (rm : rounding) (reps : list irep) (refr : rep) (loopMS segDurMS : Z) (c : tcfg)
            (timeline test : bool) (dur : option Z) (chunked : bool) : scfg :=
   {| sc_reps := reps; sc_ref := refr; sc_loopMS := loopMS; sc_segDurMS := segDurMS; sc_cfg := c;
      sc_timeline := timeline; sc_test := test; sc_dur := dur; sc_chunked := chunked;
-     sc_avail := availMS_float refr loopMS c |}.
+     sc_avail := availMS_float_r rm refr loopMS c |}.
+Definition mk_scfg := mk_scfg_r RTrunc.
 
 (** * 3. The cmafSource hand-over *)
 
